@@ -190,6 +190,22 @@ def swap_chain_rules(ctx, ii):
     incr = [(bi, t) for bi, t in ii.calls() if bi in body and t.callee_name() == "incr"]
     sets = [(bi, t, A(bi, t)) for bi, t in ii.calls() if bi in body and t.callee_name() == "set"]
     reads = [(bi, t, A(bi, t)) for bi, t in ii.calls() if bi in body and t.callee_name() in ("index", "get")]
+    # reads made through a private pure helper (`fn is_used(&self, pos) -> bool { self.is_occupied[pos] || self.is_shifted[pos] }`)
+    for bi, t in ii.calls():
+        if bi in body and t.callee_is_local() and t.callee_name() not in ("incr", "decr", "scan", "insert_internal") and prog.fn(t.callee()) is not None:
+            ct = tb.call_term(t, bi)
+            if ct[0] == "call" and ct[1] == t.callee():
+                continue      # not inlined: not a pure helper
+            g_ = prog.fn(t.callee())
+            ctx.analysed_fns.add(g_.key)
+            tbg = TermBuilder(g_, prog, {i + 1: a for i, a in enumerate(A(bi, t))}, 1)
+            for bj, tj in g_.calls():
+                if tj.callee_name() in ("index", "get"):
+                    aj = [tbg.operand(x, bj, len(g_.blocks[bj].stmts)) for x in tj.args]
+                    if aj and aj[0][0] == "field" and aj[0][1] == selfp:
+                        reads.append((bi, t, aj))
+            from ..terms import _closure_hook
+            _closure_hook[0] = tb._apply_closure_hook
     probs = []
     if len(incr) != 1:
         probs.append("%d incr calls in the chain loop" % len(incr))
@@ -476,6 +492,13 @@ def split_rules(ctx):
                     return not tr          # !(0 < x)  on an unsigned x
                 if c[1] == "Le" and b == const(0):
                     return tr              # x <= 0
+            # the same test on the number of bits kept: q + r < 64  <=>  some bits are dropped
+            if c[1] == "Lt" and b == const(64) and linear_eq(a, used):
+                return not tr
+            if c[1] == "Le" and a == const(64) and linear_eq(b, used):
+                return tr
+            if c[1] in ("Eq", "Ne") and const(64) in (a, b) and linear_eq(b if a == const(64) else a, used):
+                return tr if c[1] == "Eq" else not tr
         return None
     oks = False
     for bi, blk in enumerate(f.blocks):
